@@ -26,3 +26,7 @@ Definition run_iox (c : bool * (bool * bool * bool) * nat * list xop) : V :=
     let o := snd (run_x u (tid t) {| has_all := a; has_read := r; has_send := s |} (cinit (if u then utf8_codec else null_codec), out0) ops) in
     VL [vlist vtext (delivered o); vlist vtext (wire o); vlist enc_ev (events o); vlist vnat (returns o)]
   end.
+
+(** the write loop (job write-all): (what each os.write accepts; payload) -> pieces written, left over *)
+Definition run_write_all (c : list (option nat) * list N) : V :=
+  match c with (accepts, b) => let '(ps, lft) := write_all accepts b in VL [vlist vtext ps; vtext lft] end.
